@@ -621,3 +621,79 @@ mod tests {
         assert!(x.gcd(&y).associated(&UPoly::new(vec![Q::int(0), Q::int(1)])));
     }
 }
+
+// ---- quadratic number field Q(sqrt D) in the (1, omega) basis (for exact Gram-Schmidt) ---------
+
+#[derive(Clone, PartialEq, Eq, Hash)]
+pub struct QF<const D: i64> {
+    pub a: Q,
+    pub b: Q,
+}
+
+impl<const D: i64> Debug for QF<D> {
+    fn fmt(&self, f: &mut std::fmt::Formatter<'_>) -> std::fmt::Result {
+        write!(f, "({:?},{:?})", self.a, self.b)
+    }
+}
+
+impl<const D: i64> QF<D> {
+    pub fn from_quad(x: &Quad<D>) -> Self {
+        QF { a: Q::from_z(x.a.clone()), b: Q::from_z(x.b.clone()) }
+    }
+    pub fn rational(a: Q) -> Self {
+        QF { a, b: Q::int(0) }
+    }
+    pub fn conj(&self) -> Self {
+        if Quad::<D>::is_type1() {
+            QF { a: self.a.add(&self.b), b: self.b.neg() }
+        } else {
+            QF { a: self.a.clone(), b: self.b.neg() }
+        }
+    }
+    /// x * conj(x), a rational number
+    pub fn norm(&self) -> Q {
+        let n = self.mul(&self.conj());
+        assert!(n.b.is_zero());
+        n.a
+    }
+    pub fn inv(&self) -> Option<Self> {
+        let n = self.norm();
+        let ni = n.inv()?;
+        let c = self.conj();
+        Some(QF { a: c.a.mul(&ni), b: c.b.mul(&ni) })
+    }
+}
+
+impl<const D: i64> RefRing for QF<D> {
+    fn zero() -> Self {
+        QF { a: Q::int(0), b: Q::int(0) }
+    }
+    fn one() -> Self {
+        QF { a: Q::int(1), b: Q::int(0) }
+    }
+    fn add(&self, o: &Self) -> Self {
+        QF { a: self.a.add(&o.a), b: self.b.add(&o.b) }
+    }
+    fn sub(&self, o: &Self) -> Self {
+        QF { a: self.a.sub(&o.a), b: self.b.sub(&o.b) }
+    }
+    fn mul(&self, o: &Self) -> Self {
+        let (a, b, c, d) = (&self.a, &self.b, &o.a, &o.b);
+        let bd = b.mul(d);
+        if Quad::<D>::is_type1() {
+            let e = Q::int((D - 1) / 4);
+            QF { a: a.mul(c).add(&bd.mul(&e)), b: a.mul(d).add(&b.mul(c)).add(&bd) }
+        } else {
+            QF { a: a.mul(c).add(&bd.mul(&Q::int(D))), b: a.mul(d).add(&b.mul(c)) }
+        }
+    }
+    fn neg(&self) -> Self {
+        QF { a: self.a.neg(), b: self.b.neg() }
+    }
+    fn is_zero(&self) -> bool {
+        self.a.is_zero() && self.b.is_zero()
+    }
+    fn from_i64(i: i64) -> Self {
+        QF { a: Q::int(i), b: Q::int(0) }
+    }
+}
